@@ -12,6 +12,8 @@ R3 adjacent codes: in training the value set stays inside the declared code
    set of the format (C01 oracle): the stochastic rounding must act on the
    code index with precision 1.
 R4 unbiased orientation of stochastic_round / stochastic_round_po2.
+R6 inference arm vs deterministic configuration under IEEE arithmetic on
+   constant tensors (all-zero channel included).
 R5 every configuration that requests stochastic rounding has a random draw
    in its training arm (a dropped option makes the rounding deterministic
    and therefore biased between two codes).
@@ -341,6 +343,27 @@ def run(rep, repo, tier):
                 "deterministic configuration %s gives %s" %
                 (show(fi, 240), dcls, show(fd, 240)), loc=loc, instance=cfg,
                 facts={"config": cfg})
+    # R6 the same at the level of IEEE arithmetic on constant tensors (an
+    # all-zero channel, tiny and large values): the inference arm of the
+    # stochastic configuration gives the deterministic configuration's value
+    # and never NaN / inf where that one is finite (x/f*f is x in the reals
+    # but 0/0 on a zero channel)
+    if d is not None:
+      from ..ieee import ConstEval, Inconclusive, finite
+      for xv in (0.0, 1e-6, -1e-6, 0.25, -0.25, 3.0, -3.0):
+        try:
+          v_s = ConstEval(xv, "infer")(b.term)
+          v_d = ConstEval(xv, "infer")(d.term)
+        except Inconclusive:
+          continue
+        if not finite(v_d):
+          continue
+        rep.check(finite(v_s) and abs(v_s - v_d) <= 1e-9 * max(
+            1.0, abs(v_d)), "R6", unit, "inference-value-on-constant-tensor",
+                  "on the constant tensor x = %g the inference arm gives %r, "
+                  "the deterministic configuration %s gives %r" % (
+                      xv, v_s, dcls, v_d), loc=loc, instance=cfg,
+                  observed="x=%g -> %r" % (xv, v_s))
     # R3 adjacent codes in training
     codes = c01_codes(cls, kw)
     if codes is not None:
